@@ -307,6 +307,12 @@ class Equalizer(object):
         """
         Creates and start new player process, ready to take playback tasks
         """
+        # Every worker gets fresh queues: a task or a result left behind by a previous worker that timed out or died must
+        # never be executed by, or attributed to, a later recording
+        self._compare_tasks.close()
+        self._compare_results.close()
+        self._compare_tasks = mp.Queue()
+        self._compare_results = mp.Queue()
         self._compare_process = mp.Process(
             target=self._playback_process_target, name='Playback runner')
         self._compare_process.start()
